@@ -46,7 +46,8 @@ CFG = {
                   "dumps after every Suspend/Close of the cycles sessions and after fullclose / sigclose. Source facts the theorems need, pinned to "
                   "Gen/Conc.lean: statement order of Suspend, Resume clearing `suspended`, Close's test-and-set, and (round 3) the statement skeletons "
                   "of Parser.WaitClose / Close / emit / run's tail, PostEvent / PostEventBlocking and the input goroutine (waitclose_drains, "
-                  "input_loop_leaves_on_closed_channel, blocking_post_selects_quit). Assumed, not guaranteed by the code: Resume only after the "
+                  "input_loop_leaves_on_closed_channel, blocking_post_selects_quit; the first and the last also configure the LTS — waitDrains, postQuitArm — and "
+                  "drain_matters / quit_arm_matters show the old stuck / leaking states without them). Assumed, not guaranteed by the code: Resume only after the "
                   "application's Suspend returned and not after Close. lock_order (round 3): branch-structured events, callees qualified by receiver type (by the receiver "
                   "expression's last component: vx/Vx, tw/w, parser/p, m, win), every transitively locking function listed; mutexes are named by the same "
                   "convention, no type checker is run. The escape timer (C08) is not a component of "
